@@ -1,10 +1,11 @@
-// seq_pub.cpp — sequential differential driver for cocls::publisher<int> / cocls::subscriber<int> (C16).
+// seq_pub.cpp — sequential differential driver for cocls::publisher<pint> / cocls::subscriber<pint> (C16; pint = poisoning int).
 // engine: pub.  First line of a case: "<min> <max>" (max 0 = unlimited).  subscriber::next() is driven through its
 // awaiter's public steps await_ready / subscribe|await_suspend / await_resume, one op each, so the window between
 // the locked steps is reachable deterministically.  Wake-ups are observed by custom awaiters that log their id when
 // resumed (and whether the queue's mutex was free at that moment).  No expected values in here.
 #define VH_DEFINE_NEW
 #include "common.h"
+#include "pub_common.h"
 #define protected public
 #define private public
 #include <cocls/publisher.h>
@@ -12,8 +13,8 @@
 #undef private
 
 using namespace cocls;
-using pub_t = publisher<int>;
-using sub_t = subscriber<int>;
+using pub_t = publisher<pint>;
+using sub_t = subscriber<pint>;
 
 struct Ctx;
 
@@ -183,14 +184,14 @@ static void exec(Ctx &c, const std::vector<long> &op, std::vector<std::unique_pt
     switch (op[0]) {
         case 0: {  // publish v
             if (n != 2 || !c.pub) return reject(c);
-            if (op[1] & 1) c.pub->publish((int)op[1]);   // push(T&&)
-            else { const int v = (int)op[1]; c.pub->publish(v); }   // push(const T&)
+            if (op[1] & 1) c.pub->publish(pint((int)op[1]));   // push(T&&)
+            else { const pint v((int)op[1]); c.pub->publish(v); }   // push(const T&)
             return emit(c, 0, 0, 0, 0);
         }
         case 1: {  // publish batch
             if (!c.pub) return reject(c);
-            std::vector<int> vs;
-            for (size_t i = 1; i < n; i++) vs.push_back((int)op[i]);
+            std::vector<pint> vs;
+            for (size_t i = 1; i < n; i++) vs.push_back(pint((int)op[i]));
             c.pub->publish(vs.begin(), vs.end());
             return emit(c, 0, 0, 0, 0);
         }
@@ -261,7 +262,7 @@ static void exec(Ctx &c, const std::vector<long> &op, std::vector<std::unique_pt
                 }
             }
             bool r = s->next().await_resume();
-            return emit(c, 0, r, r ? (long)s->value() : 0, (long)s->position());
+            return emit(c, 0, r, r ? (long)(int)s->value() : 0, (long)s->position());
         }
         case 8: {  // kick
             if (n != 2 || !small(op[1])) return reject(c);
@@ -276,6 +277,17 @@ static void exec(Ctx &c, const std::vector<long> &op, std::vector<std::unique_pt
             if (n != 2 || !small(op[1])) return reject(c);
             Ctx::Slot *x = c.find(op[1]);
             if (!x || !x->live || c.helpers.count(op[1])) return reject(c);
+            // a subscriber destroyed while an awaiter of it is parked: the awaiter goes away with it (as the frame of a
+            // destroyed coroutine would); a later resume of it is a use after free
+            {
+                awaiter *a = c.q->_regs[x->p->_h]._awt;
+                if (a) {
+                    for (auto &r : c.recs)
+                        if (r.get() == a) r.reset();
+                    for (auto &hh : c.held)
+                        if (static_cast<awaiter *>(hh.get()) == a) hh.reset();
+                }
+            }
             x->p->~sub_t();
             x->live = false;
             return emit(c, 0, 0, 0, 0);
@@ -344,7 +356,7 @@ static void exec(Ctx &c, const std::vector<long> &op, std::vector<std::unique_pt
             } else {
                 hp->th.join();
                 bool r = hp->ret;
-                emit(c, 0, r, r ? (s->_val.has_value() ? (long)*s->_val : -1) : 0, (long)s->position());
+                emit(c, 0, r, r ? (s->_val.has_value() ? (long)(int)*s->_val : -1) : 0, (long)s->position());
             }
             return;
         }
@@ -362,7 +374,7 @@ static void exec(Ctx &c, const std::vector<long> &op, std::vector<std::unique_pt
             h.th.join();
             bool r = h.ret;
             c.helpers.erase(it);
-            return emit(c, 0, r, r ? (s->_val.has_value() ? (long)*s->_val : -1) : 0, (long)s->position());
+            return emit(c, 0, r, r ? (s->_val.has_value() ? (long)(int)*s->_val : -1) : 0, (long)s->position());
         }
         case 15: {  // next_ready()
             sub_t *s = (n == 2 && small(op[1])) ? c.free_sub(op[1]) : nullptr;
@@ -381,7 +393,7 @@ static void exec(Ctx &c, const std::vector<long> &op, std::vector<std::unique_pt
                     if (e.kind == 2) { got = true; pos_after_ready = e.pos_before; }
             }
             emit(c, 0, got, pos_after_ready, 0);
-            if (got) emit(c, 0, r, r ? (long)s->value() : 0, (long)s->position());
+            if (got) emit(c, 0, r, r ? (long)(int)s->value() : 0, (long)s->position());
             return;
         }
         default:
@@ -389,36 +401,65 @@ static void exec(Ctx &c, const std::vector<long> &op, std::vector<std::unique_pt
     }
 }
 
+static void run_one(const vh::Case &cs) {
+    std::printf("CASE %s\n", cs.name.c_str());
+    std::fflush(stdout);
+    {
+        std::vector<std::unique_ptr<FnCtx>> fns;
+        Ctx c;
+        bool cfg_ok = !cs.ops.empty() && cs.ops[0].size() == 2;
+        long mn = 0, mx = 0;
+        if (cfg_ok) {
+            mn = cs.ops[0][0];
+            mx = cs.ops[0][1];
+            cfg_ok = mn >= 1 && (mx == 0 || mx >= mn);
+        }
+        if (!cfg_ok) {
+            for (size_t i = 0; i < cs.ops.size(); i++) reject(c);
+        } else {
+            if (mn == 1 && mx == 0) c.pub.emplace();
+            else c.pub.emplace(mx == 0 ? std::numeric_limits<std::size_t>::max() : (std::size_t)mx, (std::size_t)mn);
+            c.q = c.pub->get_queue();
+            emit(c, 0, mn, mx, 0);
+            for (size_t i = 1; i < cs.ops.size(); i++) exec(c, cs.ops[i], fns);
+            c.release_helpers();
+        }
+    }
+    std::printf("END\n");
+    std::fflush(stdout);
+}
+
 int main(int argc, char **argv) {
     if (argc < 2) return 2;
     cocls::verif::get_hooks().log = &on_log;
     cocls::verif::get_hooks().block = &on_block;
-    for (auto &cs : vh::read_cases(argv[1])) {
-        std::printf("CASE %s\n", cs.name.c_str());
-        std::fflush(stdout);
-        {
-            std::vector<std::unique_ptr<FnCtx>> fns;
-            Ctx c;
-            bool cfg_ok = !cs.ops.empty() && cs.ops[0].size() == 2;
-            long mn = 0, mx = 0;
-            if (cfg_ok) {
-                mn = cs.ops[0][0];
-                mx = cs.ops[0][1];
-                cfg_ok = mn >= 1 && (mx == 0 || mx >= mn);
-            }
-            if (!cfg_ok) {
-                for (size_t i = 0; i < cs.ops.size(); i++) reject(c);
-            } else {
-                if (mn == 1 && mx == 0) c.pub.emplace();
-                else c.pub.emplace(mx == 0 ? std::numeric_limits<std::size_t>::max() : (std::size_t)mx, (std::size_t)mn);
-                c.q = c.pub->get_queue();
-                emit(c, 0, mn, mx, 0);
-                for (size_t i = 1; i < cs.ops.size(); i++) exec(c, cs.ops[i], fns);
-                c.release_helpers();
-            }
+    // the case file is streamed (the thorough tier has millions of cases): one case is read, run and answered at a time
+    std::ifstream in(argv[1]);
+    std::string line;
+    vh::Case cs;
+    bool open = false;
+    while (std::getline(in, line)) {
+        if (line.empty()) continue;
+        if (!open) {
+            std::istringstream ss(line);
+            std::string kw;
+            ss >> kw;
+            if (kw != "CASE") continue;
+            cs = vh::Case();
+            ss >> cs.engine >> cs.name;
+            open = true;
+            continue;
         }
-        std::printf("END\n");
-        std::fflush(stdout);
+        if (line != "END") {
+            std::istringstream ss(line);
+            std::vector<long> v;
+            long x;
+            while (ss >> x) v.push_back(x);
+            cs.ops.push_back(v);
+            continue;
+        }
+        open = false;
+        run_one(cs);
     }
     return 0;
 }
